@@ -12,76 +12,76 @@ package vm
 //@ spec fn max64(a uint64, b uint64) uint64 = ite(a > b, a, b)
 
 //@ func calcMemSize64WithUint
-//@   property C11
+//@   property C10 C11
 //@   requires off != nil
 //@   ensures [ovf]  result1 == memOvf(u256(off), zext(256, length64))
 //@   ensures [size] !result1 ==> result0 == memSz(u256(off), zext(256, length64))
 //@   modifies nothing
 
 //@ func calcMemSize64
-//@   property C11
+//@   property C10 C11
 //@   requires off != nil && l != nil
 //@   ensures [ovf]  result1 == memOvf(u256(off), u256(l))
 //@   ensures [size] !result1 ==> result0 == memSz(u256(off), u256(l))
 //@   modifies nothing
 
 //@ func toWordSize
-//@   property C11
+//@   property C10 C11
 //@   option inline
 //@   ensures [ceil] wide(result) == (wide(size) + 31) / 32
 //@   modifies nothing
 
 //@ func memorySha3
-//@   property C11
+//@   property C10 C11
 //@   requires stack != nil && len(stack.data) >= 2
 //@   ensures [ovf]  result1 == memOvf(stack.data[len(stack.data)-1], stack.data[len(stack.data)-2])
 //@   ensures [size] !result1 ==> result0 == memSz(stack.data[len(stack.data)-1], stack.data[len(stack.data)-2])
 //@   modifies nothing
 
 //@ func memoryCallDataCopy
-//@   property C11
+//@   property C10 C11
 //@   requires stack != nil && len(stack.data) >= 3
 //@   ensures [ovf]  result1 == memOvf(stack.data[len(stack.data)-1], stack.data[len(stack.data)-3])
 //@   ensures [size] !result1 ==> result0 == memSz(stack.data[len(stack.data)-1], stack.data[len(stack.data)-3])
 //@   modifies nothing
 
 //@ func memoryReturnDataCopy
-//@   property C11
+//@   property C10 C11
 //@   requires stack != nil && len(stack.data) >= 3
 //@   ensures [ovf]  result1 == memOvf(stack.data[len(stack.data)-1], stack.data[len(stack.data)-3])
 //@   ensures [size] !result1 ==> result0 == memSz(stack.data[len(stack.data)-1], stack.data[len(stack.data)-3])
 //@   modifies nothing
 
 //@ func memoryCodeCopy
-//@   property C11
+//@   property C10 C11
 //@   requires stack != nil && len(stack.data) >= 3
 //@   ensures [ovf]  result1 == memOvf(stack.data[len(stack.data)-1], stack.data[len(stack.data)-3])
 //@   ensures [size] !result1 ==> result0 == memSz(stack.data[len(stack.data)-1], stack.data[len(stack.data)-3])
 //@   modifies nothing
 
 //@ func memoryExtCodeCopy
-//@   property C11
+//@   property C10 C11
 //@   requires stack != nil && len(stack.data) >= 4
 //@   ensures [ovf]  result1 == memOvf(stack.data[len(stack.data)-2], stack.data[len(stack.data)-4])
 //@   ensures [size] !result1 ==> result0 == memSz(stack.data[len(stack.data)-2], stack.data[len(stack.data)-4])
 //@   modifies nothing
 
 //@ func memoryMLoad
-//@   property C11
+//@   property C10 C11
 //@   requires stack != nil && len(stack.data) >= 1
 //@   ensures [ovf]  result1 == memOvf(stack.data[len(stack.data)-1], 32)
 //@   ensures [size] !result1 ==> result0 == memSz(stack.data[len(stack.data)-1], 32)
 //@   modifies nothing
 
 //@ func memoryMStore8
-//@   property C11
+//@   property C10 C11
 //@   requires stack != nil && len(stack.data) >= 1
 //@   ensures [ovf]  result1 == memOvf(stack.data[len(stack.data)-1], 1)
 //@   ensures [size] !result1 ==> result0 == memSz(stack.data[len(stack.data)-1], 1)
 //@   modifies nothing
 
 //@ func memoryMStore
-//@   property C11
+//@   property C10 C11
 //@   requires stack != nil && len(stack.data) >= 1
 //@   ensures [ovf]  result1 == memOvf(stack.data[len(stack.data)-1], 32)
 //@   ensures [size] !result1 ==> result0 == memSz(stack.data[len(stack.data)-1], 32)
@@ -89,70 +89,70 @@ package vm
 
 //@ spec fn umax256(a u256, b u256) u256 = ite(a > b, a, b)
 //@ func memoryMcopy
-//@   property C11
+//@   property C10 C11
 //@   requires stack != nil && len(stack.data) >= 3
 //@   ensures [ovf]  result1 == memOvf(umax256(stack.data[len(stack.data)-1], stack.data[len(stack.data)-2]), stack.data[len(stack.data)-3])
 //@   ensures [size] !result1 ==> result0 == memSz(umax256(stack.data[len(stack.data)-1], stack.data[len(stack.data)-2]), stack.data[len(stack.data)-3])
 //@   modifies nothing
 
 //@ func memoryCreate
-//@   property C11
+//@   property C10 C11
 //@   requires stack != nil && len(stack.data) >= 3
 //@   ensures [ovf]  result1 == memOvf(stack.data[len(stack.data)-2], stack.data[len(stack.data)-3])
 //@   ensures [size] !result1 ==> result0 == memSz(stack.data[len(stack.data)-2], stack.data[len(stack.data)-3])
 //@   modifies nothing
 
 //@ func memoryCreate2
-//@   property C11
+//@   property C10 C11
 //@   requires stack != nil && len(stack.data) >= 4
 //@   ensures [ovf]  result1 == memOvf(stack.data[len(stack.data)-2], stack.data[len(stack.data)-3])
 //@   ensures [size] !result1 ==> result0 == memSz(stack.data[len(stack.data)-2], stack.data[len(stack.data)-3])
 //@   modifies nothing
 
 //@ func memoryCall
-//@   property C11
+//@   property C10 C11
 //@   requires stack != nil && len(stack.data) >= 7
 //@   ensures [ovf]  result1 == (memOvf(stack.data[len(stack.data)-6], stack.data[len(stack.data)-7]) || memOvf(stack.data[len(stack.data)-4], stack.data[len(stack.data)-5]))
 //@   ensures [size] !result1 ==> result0 == max64(memSz(stack.data[len(stack.data)-6], stack.data[len(stack.data)-7]), memSz(stack.data[len(stack.data)-4], stack.data[len(stack.data)-5]))
 //@   modifies nothing
 
 //@ func memoryDelegateCall
-//@   property C11
+//@   property C10 C11
 //@   requires stack != nil && len(stack.data) >= 6
 //@   ensures [ovf]  result1 == (memOvf(stack.data[len(stack.data)-5], stack.data[len(stack.data)-6]) || memOvf(stack.data[len(stack.data)-3], stack.data[len(stack.data)-4]))
 //@   ensures [size] !result1 ==> result0 == max64(memSz(stack.data[len(stack.data)-5], stack.data[len(stack.data)-6]), memSz(stack.data[len(stack.data)-3], stack.data[len(stack.data)-4]))
 //@   modifies nothing
 
 //@ func memoryStaticCall
-//@   property C11
+//@   property C10 C11
 //@   requires stack != nil && len(stack.data) >= 6
 //@   ensures [ovf]  result1 == (memOvf(stack.data[len(stack.data)-5], stack.data[len(stack.data)-6]) || memOvf(stack.data[len(stack.data)-3], stack.data[len(stack.data)-4]))
 //@   ensures [size] !result1 ==> result0 == max64(memSz(stack.data[len(stack.data)-5], stack.data[len(stack.data)-6]), memSz(stack.data[len(stack.data)-3], stack.data[len(stack.data)-4]))
 //@   modifies nothing
 
 //@ func memoryReturn
-//@   property C11
+//@   property C10 C11
 //@   requires stack != nil && len(stack.data) >= 2
 //@   ensures [ovf]  result1 == memOvf(stack.data[len(stack.data)-1], stack.data[len(stack.data)-2])
 //@   ensures [size] !result1 ==> result0 == memSz(stack.data[len(stack.data)-1], stack.data[len(stack.data)-2])
 //@   modifies nothing
 
 //@ func memoryRevert
-//@   property C11
+//@   property C10 C11
 //@   requires stack != nil && len(stack.data) >= 2
 //@   ensures [ovf]  result1 == memOvf(stack.data[len(stack.data)-1], stack.data[len(stack.data)-2])
 //@   ensures [size] !result1 ==> result0 == memSz(stack.data[len(stack.data)-1], stack.data[len(stack.data)-2])
 //@   modifies nothing
 
 //@ func memoryLog
-//@   property C11
+//@   property C10 C11
 //@   requires stack != nil && len(stack.data) >= 2
 //@   ensures [ovf]  result1 == memOvf(stack.data[len(stack.data)-1], stack.data[len(stack.data)-2])
 //@   ensures [size] !result1 ==> result0 == memSz(stack.data[len(stack.data)-1], stack.data[len(stack.data)-2])
 //@   modifies nothing
 
 //@ func memoryAuthCall
-//@   property C11
+//@   property C10 C11
 //@   requires stack != nil && len(stack.data) >= 9
 //@   ensures [ovf]  result1 == (memOvf(stack.data[len(stack.data)-8], stack.data[len(stack.data)-9]) || memOvf(stack.data[len(stack.data)-6], stack.data[len(stack.data)-7]))
 //@   ensures [size] !result1 ==> result0 == max64(memSz(stack.data[len(stack.data)-8], stack.data[len(stack.data)-9]), memSz(stack.data[len(stack.data)-6], stack.data[len(stack.data)-7]))
@@ -171,7 +171,7 @@ package vm
 //@ spec fn magMul(x uint64, p26 bool) uint64 = ite(p26, x * 30, x)
 
 //@ func memoryGasCost
-//@   property C11
+//@   property C10 C11
 //@   option intmode=math reveal=memFee
 //@   requires mem != nil && memInv(uint64(len(mem.store)), mem.lastGasCost)
 //@   ensures [err]    (result1 == nil) == (newMemSize <= 137438953440)
